@@ -238,7 +238,9 @@ func (_this *Encoder) OnBigFloat(value *big.Float) {
 	// TODO: Big float rounding needs a configuration policy
 	v, err := conversions.BigFloatToPBigDecimalFloat(value)
 	if err != nil {
-		_this.errorf("could not convert %v to apd.Decimal", value)
+		// (not %v of the value: rendering a big.Float with a huge exponent in
+		// decimal, to word an error, can take minutes)
+		_this.errorf("could not convert %v to apd.Decimal: %v", conversions.DescribeBigFloat(value), err)
 	}
 	_this.OnBigDecimalFloat(v)
 }
